@@ -372,6 +372,7 @@ func checkC19(w *World, r *Report) {
 	r.Counts["string-measuring constructs in the sibling implementations"] = n
 	checkOptionalDefaults(w, r)
 	checkSortComparators(w, r)
+	checkMeasureByShape(w, r)
 	// R19.3: the emptiness routine behind `default` (and the empty test)
 	nz := checkZeroTests(w, r, "R19.3", func(f *types.Func) bool { return f.Name() == "isEmptyValue" }, "treated as non-empty: `default` does not replace it although it replaces int 0")
 	r.Counts["zero tests in the emptiness routine"] = nz
@@ -714,4 +715,62 @@ func (w *World) registrationTable(cl *ast.CompositeLit, valTs ...types.Type) (ma
 		return out, true
 	}
 	return nil, false
+}
+
+// checkMeasureByShape — R19.5: how many elements a value has is decided by what the value IS
+// (its kind), not by what it can do.  In the sibling implementations that give values element
+// semantics (length, count, first, last, slice, reverse and the helpers they hand the value to),
+// the data value is never asserted to an interface that has methods (fmt.Stringer, error, …): a
+// named list or map type that happens to print itself would be measured by its printed form,
+// while the for loop, first and slice go on seeing its elements.
+func checkMeasureByShape(w *World, r *Report) {
+	scope := map[*ssa.Function]string{}
+	for f, nm := range w.registered(elementSemanticsNames) {
+		scope[w.ssaFunc(f)] = nm
+	}
+	for round := 0; round < 2; round++ {
+		for fn, nm := range scope {
+			instrsOf(fn, func(in ssa.Instruction) {
+				c, ok := in.(*ssa.Call)
+				if !ok {
+					return
+				}
+				g := c.Call.StaticCallee()
+				if g == nil || !w.inPkg(g) || scope[g] != "" {
+					return
+				}
+				for i, a := range c.Call.Args {
+					if i < len(g.Params) {
+						if it, ok := g.Params[i].Type().Underlying().(*types.Interface); ok && it.NumMethods() == 0 {
+							if _, isParam := dataParam(a); isParam {
+								scope[g] = nm
+							}
+						}
+					}
+				}
+			})
+		}
+	}
+	n := 0
+	for fn, nm := range scope {
+		if fn == nil {
+			continue
+		}
+		instrsOf(fn, func(in ssa.Instruction) {
+			ta, ok := in.(*ssa.TypeAssert)
+			if !ok {
+				return
+			}
+			if _, isParam := dataParam(ta.X); !isParam {
+				return
+			}
+			n++
+			it, isI := ta.AssertedType.Underlying().(*types.Interface)
+			if isI && it.NumMethods() > 0 {
+				r.bad("R19.5", ssaName(fn), "the value is classified by its shape ("+nm+")", w.posOf(ta.Pos()), "the data value is asked whether it implements "+types.TypeString(ta.AssertedType, nil)+" before its kind is looked at: a list or map type with such a method is measured through the method (its printed form) here, while the other element operations and the for loop see its elements — length no longer equals the number of elements they observe")
+			}
+		})
+	}
+	r.ok("R19.5", "(sibling implementations)", "values are classified by type and kind only", "-", fmt.Sprintf("%d type assertions on the data value examined", n), true)
+	r.floor("type assertions on the data value in sibling implementations", n, 5)
 }
